@@ -35,6 +35,9 @@ def build(rng, tier):
                         c["select"], c["kkinds"][0] = "withkey", "f64"      # the selection names the key column again
                     if by in ("col", "array", "level") and n >= 2 and rng.random() < 0.2 and c["kkinds"][0] != "cat" and not (c["kkinds"][0] == "str" and k1[0] == NULL):
                         c["T"] = 2          # the facade's grouper factorizes the key chunk-wise
+                    if meth.startswith("rolling_") and rng.random() < 0.7:
+                        W = rng.pick([1, 2, 3])
+                        c["roll"] = [W, rng.pick([None] + list(range(0, W + 1)))]      # .rolling(W, min_periods=None | 0..W)
                     out.append(c)
     return out
 
@@ -44,7 +47,7 @@ def run(tier):
         "Series/DataFrames of up to 3 (4) rows: every key column over {Null,1,2} (exhaustive for n<=2, sampled above) x keys "
         "given by column name / several names / array / index level / name+array mixture x index kind (default, shuffled "
         "ints, duplicated labels, strings, 2-level) x 1-2 value columns with zeros/negatives/nulls x with and without [] "
-        "selection (one column, a list, a list that names the key column again) x string / float / categorical (with an unused category) keys x every facade method (10 aggregations, cumsum/cummax/cummin/cumcount, rolling sum/mean/min/max, "
+        "selection (one column, a list, a list that names the key column again) x string / float / categorical (with an unused category) keys x every facade method (10 aggregations, cumsum/cummax/cummin/cumcount, rolling sum/mean/min/max with window 1..3 and min_periods None / 0..window, "
         "iteration).  The facade's result, the core engine's result on the selected value columns and (where the property "
         "names it) pandas' result are all projected to the same trace formats and validated against the same specifications."))
     ck.mc_bg("GBCore", C01.MC.format(labels="{1, 2}", nkeys=2, vals="{1}", rows=3, kernels='{"sum", "first", "size"}', obv="FALSE"), "core_two_keys", workers=4)
